@@ -125,14 +125,16 @@ def exportAttrs {α} (f : XFld α) (u : PyArg) : Attrs :=
   { units := exportUnit u f.unit, cell := some f.mesh.cell, pmin := some f.mesh.region.pmin,
     pmax := some f.mesh.region.pmax, nvdim := some (.int f.nvdim), tol := some f.mesh.region.tol }
 
-/-- `Field.to_xarray` -/
+/-- the DataArray `to_xarray` assembles (`xr.DataArray(field_array, dims=…, coords=…, name=…,
+attrs=…)`, then the per-axis `units`) -/
+def exported {α} (f : XFld α) (nm : String) (unit : PyArg) : XA α :=
+  { name := nm, axes := exportAxes f, vdimsCoord := if 1 < f.nvdim then f.vdims else none,
+    data := exportData f, attrs := exportAttrs f unit, dtype := f.dtype }
+
+/-- `Field.to_xarray`: both arguments are type-checked first -/
 def toXarray {α} (f : XFld α) (name : PyArg := .str "field") (unit : PyArg := .none) : M (XA α) :=
   match name with
-  | .str nm =>
-    if unit = .other then .error .type
-    else .ok { name := nm, axes := exportAxes f,
-               vdimsCoord := if 1 < f.nvdim then f.vdims else none,
-               data := exportData f, attrs := exportAttrs f unit, dtype := f.dtype }
+  | .str nm => if unit = .other then .error .type else .ok (exported f nm unit)
   | _ => .error .type
 
 /-! ## Import: `Field.from_xarray(xa)` -/
